@@ -30,6 +30,18 @@ func (m *Machine) unop(fr *frame, instr *ssa.UnOp, x Value) Value {
 		}
 		return m.tb.Neg(t)
 	case token.MUL:
+		if sp, ok := x.(*SymPtr); ok {
+			bs := make([]*term.T, len(sp.arr))
+			for i, e := range sp.arr {
+				bs[i] = e.(*term.T)
+			}
+			w := int(sp.idx.S.W)
+			r := bs[len(bs)-1]
+			for i := len(bs) - 2; i >= 0; i-- {
+				r = m.tb.Ite(m.tb.Eq(sp.idx, m.tb.BV(w, uint64(i))), bs[i], r)
+			}
+			return r
+		}
 		p, ok := x.(*Value)
 		if !ok {
 			panic(fmt.Sprintf("load through %T", x))
